@@ -9,7 +9,9 @@ rm -rf $M; mkdir -p $M; cp -r /repo/src $M/src
 ( cd $M && M=$M python3 -c "$1" ) || { echo "edit failed"; rm -rf $M; exit 2; }
 diff -r /repo/src/pyopenapi_gen $M/src/pyopenapi_gen | grep -v "^Only in\|__pycache__" | head -12
 for c in "${checks[@]}"; do
+  cp /verif/evidence/$c.json /tmp/mut_$name.$c.evidence.bak 2>/dev/null
   VERIF_REPO=$M timeout 1500 /verif/check $c > /tmp/mut_$name.$c.log 2>&1; rc=$?
+  [ -f /tmp/mut_$name.$c.evidence.bak ] && mv /tmp/mut_$name.$c.evidence.bak /verif/evidence/$c.json
   echo "MUTANT $name check $c exit=$rc  $(grep -c '^VIOLATION' /tmp/mut_$name.$c.log) violations: $(grep -A1 '^VIOLATION' /tmp/mut_$name.$c.log | grep clause= | head -3 | cut -c1-160 | tr '\n' '|')"
 done
 rm -rf $M
